@@ -51,6 +51,7 @@ func NewCtx() *Ctx {
 	c.decl("fun:set32", "(declare-fun set32 (Int) Int)")   // x | (1<<32)
 	c.axioms = append(c.axioms,
 		condAxiom{[]string{"(strlen "}, "(forall ((s Str)) (! (>= (strlen s) 0) :pattern ((strlen s))))"},
+		condAxiom{[]string{"(str_concat "}, "(forall ((a Str) (b Str)) (! (= (strlen (str_concat a b)) (+ (strlen a) (strlen b))) :pattern ((str_concat a b))))"},
 		condAxiom{[]string{"(set32 "}, "(forall ((x Int)) (! (=> (and (<= 0 x) (< x 4294967296)) (and (not (bit32 x)) (= (low32 x) x) (bit32 (set32 x)) (= (low32 (set32 x)) x) (>= (set32 x) 4294967296))) :pattern ((set32 x))))"},
 		condAxiom{[]string{"(bit32 "}, "(forall ((x Int)) (! (=> (and (<= 0 x) (< x 4294967296)) (and (not (bit32 x)) (= (low32 x) x))) :pattern ((bit32 x))))"},
 		condAxiom{[]string{"(low32 "}, "(forall ((x Int)) (! (=> (and (<= 0 x) (< x 4294967296)) (= (low32 x) x)) :pattern ((low32 x))))"},
